@@ -229,7 +229,7 @@ def run(c):
                 if not names0: continue
                 # determinism probe (C15 is a separate property): check-mode scenarios need "the files it would generate"
                 nondet = set()
-                for k2 in range(2):
+                for k2 in range(4):
                     pr = os.path.join(base, f"probe{k2}")
                     shutil.copytree(os.path.join(base, "wit"), os.path.join(pr, "wit"))
                     run_cli(binp, [be] + BACKENDS[be] + ["wit", "--out-dir", "out"], pr)
@@ -242,6 +242,7 @@ def run(c):
                     shutil.rmtree(base, ignore_errors=True)
                     continue
                 # sanity of the tree-change detector: a non-check run does change the tree
+                local = []
                 for s, fixed in enumerate(plan[be]):
                     sc = os.path.join(base, f"s{s}")
                     shutil.copytree(os.path.join(base, "wit"), os.path.join(sc, "wit"))
@@ -308,8 +309,29 @@ def run(c):
                     if vis != names[:len(vis)]:
                         c.broken.append(("corr:cli-order", f"--check visited {vis}, expected a prefix of {names}"))
                     stats["outcomes"][obs.split(":")[0]] = stats["outcomes"].get(obs.split(":")[0], 0) + 1
-                    cases.append((" ".join(toks), obs, before == after, meta))
-                    shutil.rmtree(ref, ignore_errors=True); shutil.rmtree(sc, ignore_errors=True)
+                    # generation must have been the same in the reference run as in the first run (else: nondeterministic)
+                    for n in names0:
+                        if muts.get(n) == "identical" and n in names:
+                            if open(os.path.join(ref, "out", n), "rb").read() != open(os.path.join(base, "out", n), "rb").read():
+                                nondet.add(n)
+                    local.append((" ".join(toks), obs, before == after, meta, sc, args, cwd_of, prefix))
+                    shutil.rmtree(ref, ignore_errors=True)
+                # model answers for this (backend, world); a disagreement is confirmed by re-running the same --check
+                lm = run_lines([model], [r + "\t" + o + " " + ("1" if u else "0") for r, o, u, *_ in local], timeout=300)
+                for (r, o, u, meta, sc, args, cwd_of, prefix), m in zip(local, lm):
+                    if not m.endswith("spec=ok") or m.split(" ")[0] != o:
+                        again = set()
+                        for _ in range(3):
+                            crc, cgens, cmsg, _e = run_cli(binp, args + ["--check"], cwd_of(sc))
+                            again.add(classify(crc, cgens, cmsg, prefix))
+                        if again != {o}:
+                            nondet.add("(outcome of identical --check runs varies: " + ",".join(sorted(str(x) for x in again | {o})) + ")")
+                if nondet:
+                    stats.setdefault("nondeterministic_generation_skipped", []).append(
+                        {"backend": be, "world": wk, "files": sorted(nondet)[:6], "discarded_runs": len(local)})
+                else:
+                    cases += [(r, o, u, meta, m) for (r, o, u, meta, *_), m in zip(local, lm)]
+                for x in local: shutil.rmtree(x[4], ignore_errors=True)
                 # thorough: system-call level confirmation that --check opens nothing for writing
                 if c.tier == "thorough" and shutil.which("strace"):
                     sc = os.path.join(base, "st"); shutil.copytree(os.path.join(base, "out"), os.path.join(sc, "out"))
@@ -330,8 +352,8 @@ def run(c):
     finally:
         shutil.rmtree(W, ignore_errors=True)
 
-    reqs = [r + "\t" + o + " " + ("1" if u else "0") for r, o, u, _ in cases]
-    mm = run_lines([model], reqs, timeout=600)
+    mm = [m for *_, m in cases]
+    cases = [x[:4] for x in cases]
     c.cov["corpus_cases"] = ncorpus
     def nontriv(r, o): return o != "ok"
     c.compare("cli-check", [r for r, _, _, _ in cases], [o for _, o, _, _ in cases],
